@@ -34,7 +34,10 @@ CLAIM = dict(
     "sizes and the nearest integer in general. OBSERVED only (differential check + oracle): that OpenCV's INTER_AREA and "
     "warpPerspective kernels realise these models (Resize within 1e-6 relative, float32 area weights; superpose exactly), that numpy "
     "repeat/sum/slicing realise refinement/coarsening/reduction (exact), and all metadata (dimensions, origin, extents).",
-    note="DEFINITIONAL (rfl on the model, the code side is observed by the oracle): reduce_sum_eq part 1, reduce_avg_eq, resize_keeps_extent, "
+    note="FAILING clauses are only those the statement implies (conservation / documented counterpart, extents, sum / average, refine-coarsen identity, "
+    "shared-grid superposition) on inputs inside the quantifier (float32/float64, 2-D refinement); MARKS only (tie, `no-failing-input-found`): source "
+    "unchanged / repeated call, re-used vs fresh Resize bitwise, non-conservative Resize integral, integer sources, 1-D/3-D refinement and the 1-D coded section, "
+    "reduce dimensions formula, extrusion data layout, offset-grid pointwise placement, equalize_voxel_size. DEFINITIONAL (rfl on the model, the code side is observed by the oracle): reduce_sum_eq part 1, reduce_avg_eq, resize_keeps_extent, "
     "equalize_keeps_extent. Level 'other': the conserved quantity of Resize is the documented array sum, not sum x voxel volume; the OpenCV kernels are a "
     "contract checked numerically, not proved. Known findings: coarsening with an odd (intermediate) extent is not conservative; "
     "reduce_axis along z / extrude_along_axis exchange the physical extents of the retained x and y axes (3-D and 2-D axis conventions conflict).",
@@ -75,6 +78,12 @@ def box(img):
 
 
 
+def soft(ctx, signature, what, replay=None):
+    """a clause that is NOT stated by the property (current convention / outside the quantifier / tie of the model only):
+    a mark (the run ends `no-failing-input-found` unless a stated clause fails), never a claimed failing input"""
+    ctx.mark("TIE-BROKEN", {"correspondence": signature, "what": str(what)[:600], "case": {k: v for k, v in (replay or {}).items() if k != "values"}})
+
+
 def snapshot(d, obj):
     """everything the property reads from a source: data, dimensions, origin, voxel size, extents, integral"""
     if isinstance(obj, np.ndarray):
@@ -107,20 +116,21 @@ def twice(ctx, d, name, sources, fn, replay):
     after = [snapshot(d, x) for x in sources]
     if not same(before, after):
         what = [k for b, a in zip(before, after) for k in b if not same(b[k], a.get(k))]
-        ctx.fail(f"C11:{name}:source-changed-by-call", f"the source image differs after the call in {sorted(set(what))}: "
+        soft(ctx, f"C11:{name}:source-changed-by-call", f"the source image differs after the call in {sorted(set(what))}: "
                  f"dimensions {[b.get('dimensions') for b in before]} -> {[a.get('dimensions') for a in after]}, integral "
                  f"{[np.asarray(b.get('integral')).tolist() for b in before]} -> {[np.asarray(a.get('integral')).tolist() for a in after]}", dict(replay, clause="source-unchanged"))
     r2 = call(fn)
+    ctx.second_result = r2  # stated clauses may be evaluated on the second call of the same source as well
     s1 = r1 if isinstance(r1, Raised) else snapshot(d, r1)
     s2 = r2 if isinstance(r2, Raised) else snapshot(d, r2)
     if not same(s1, s2):
-        ctx.fail(f"C11:{name}:repeated-call-on-same-source-differs",
+        soft(ctx, f"C11:{name}:repeated-call-on-same-source-differs",
                  "first call: " + (repr(s1) if isinstance(s1, Raised) else f"dimensions {s1.get('dimensions')} integral {np.asarray(s1.get('integral')).tolist()}") +
                  "; second call: " + (repr(s2) if isinstance(s2, Raised) else f"dimensions {s2.get('dimensions')} integral {np.asarray(s2.get('integral')).tolist()}"),
                  dict(replay, clause="repeat"))
     after2 = [snapshot(d, x) for x in sources]
     if same(before, after) and not same(before, after2):
-        ctx.fail(f"C11:{name}:source-changed-by-call", "the source image differs after the second call", dict(replay, clause="source-unchanged"))
+        soft(ctx, f"C11:{name}:source-changed-by-call", "the source image differs after the second call", dict(replay, clause="source-unchanged"))
     return r1
 
 
@@ -186,12 +196,13 @@ def run(ctx):
                         {"op": "resize", "shape": shape, "target": tgt, "values": arr.ravel().tolist(), "trailing": trailing, "dtype": dtype.__name__})
             n_resize += 1
             ctx.count(("resize", shape, tgt, trailing, str(dtype)), nontrivial=tgt != shape)
+            F = (lambda sig, what, rp=None: soft(ctx, sig, what, rp)) if np.issubdtype(dtype, np.integer) else ctx.fail  # integer sources: outside the quantifier
             if isinstance(res, Raised):
-                ctx.fail(f"C11:Resize(conservative,{kind}):raises", f"{res} for {shape}->{tgt}", {"op": "resize", "shape": shape, "target": tgt, "values": arr.ravel().tolist(), "trailing": trailing})
+                F(f"C11:Resize(conservative,{kind}):raises", f"{res} for {shape}->{tgt}", {"op": "resize", "shape": shape, "target": tgt, "values": arr.ravel().tolist(), "trailing": trailing})
                 continue
             out = res.img if as_image else res
             if tuple(out.shape) != tuple(tgt) + trailing:
-                ctx.fail(f"C11:Resize(conservative,{kind}):shape", f"shape {out.shape} for target {tgt}", {"op": "resize", "shape": shape, "target": tgt, "trailing": trailing})
+                F(f"C11:Resize(conservative,{kind}):shape", f"shape {out.shape} for target {tgt}", {"op": "resize", "shape": shape, "target": tgt, "trailing": trailing})
                 continue
             s_in = arr.astype(np.float64).sum(axis=(0, 1))
             s_out = out.astype(np.float64).sum(axis=(0, 1))
@@ -199,7 +210,7 @@ def run(ctx):
             err = float(np.max(np.abs(s_in - s_out) / scale))
             worst = max(worst, err)
             if err > RTOL:
-                ctx.fail(f"C11:Resize(conservative,{kind}):array-sum-not-conserved", f"sum {s_in.tolist()} -> {s_out.tolist()} for {shape}->{tgt} ({dtype.__name__})",
+                F(f"C11:Resize(conservative,{kind}):array-sum-not-conserved", f"sum {s_in.tolist()} -> {s_out.tolist()} for {shape}->{tgt} ({dtype.__name__})",
                          {"op": "resize", "shape": shape, "target": tgt, "values": arr.ravel().tolist(), "trailing": trailing, "dtype": dtype.__name__})
             if as_image and not (np.allclose(res.dimensions, img.dimensions, rtol=0, atol=0) and np.allclose(res.origin, img.origin, rtol=0, atol=0)
                                  and np.allclose(res.voxel_size, [img.dimensions[k] / tgt[k] for k in range(2)], rtol=1e-15, atol=0)):
@@ -209,7 +220,7 @@ def run(ctx):
                 plain = call(lambda: d.Resize(shape=tgt, interpolation="inter_area")(img))
                 ia, ib = integ(d, img), (plain if isinstance(plain, Raised) else integ(d, plain))
                 if isinstance(ib, Raised) or isinstance(ia, Raised) or not np.allclose(ib, ia, rtol=RTOL, atol=RTOL * float(np.max(np.abs(arr.astype(float))) + 1) * 4):
-                    ctx.fail(f"C11:Resize(inter_area,{kind}):integral-not-preserved", f"integral {ia} -> {ib} for {shape}->{tgt}",
+                    soft(ctx, f"C11:Resize(inter_area,{kind}):integral-not-preserved", f"integral {ia} -> {ib} for {shape}->{tgt}",
                              {"op": "resize", "shape": shape, "target": tgt, "values": arr.ravel().tolist(), "trailing": trailing, "dtype": dtype.__name__, "conservative": False})
             if not trailing and len(lines) < ctx.pick(400, 5000):
                 corr("resize", f"resize {shape[0]} {shape[1]} {tgt[0]} {tgt[1]} {flist(arr.ravel().tolist())}", out, False)
@@ -241,8 +252,15 @@ def run(ctx):
             v2 = r2 if isinstance(r2, Raised) else np.asarray(r2.img if as_image else r2)
             n_seq += 1
             ctx.count(("resize-seq", T, tuple(shapes_in), n, as_image, str(dtype)), nontrivial=n > 0)
+            if not isinstance(v1, Raised):
+                s_in, s_out = float(np.sum(a, dtype=float)), float(np.sum(v1, dtype=float))
+                if abs(s_in - s_out) > RTOL * max(float(np.abs(a.astype(float)).sum()), 1.0):
+                    ctx.fail("C11:Resize(conservative,re-used object):array-sum-not-conserved",
+                             f"call {n} of one Resize(target {T}) object on inputs of shapes {shapes_in}: array sum {s_in} -> {s_out}",
+                             {"op": "resize-seq", "target": T, "shapes": shapes_in, "values": [x.ravel().tolist() for x in arrs], "call": n, "image": as_image, "dtype": dtype.__name__})
+                    break
             if not same(v1, v2):
-                ctx.fail("C11:Resize(conservative):re-used-object-differs-from-fresh-object",
+                soft(ctx, "C11:Resize(conservative):re-used-object-differs-from-fresh-object",
                          f"call {n} of one Resize(target {T}) object on inputs of shapes {shapes_in}: sum {None if isinstance(v1, Raised) else float(np.sum(v1, dtype=float))} "
                          f"(input sum {float(np.sum(a, dtype=float))}), a fresh object gives {v2 if isinstance(v2, Raised) else float(np.sum(v2, dtype=float))}",
                          {"op": "resize-seq", "target": T, "shapes": shapes_in, "values": [x.ravel().tolist() for x in arrs], "call": n, "image": as_image, "dtype": dtype.__name__})
@@ -266,6 +284,7 @@ def run(ctx):
             dims = [0.5 * n for n in shape]
             img = image(d, arr, dim, dims, series, scalar)
             i0 = integ(d, img)
+            FR = ctx.fail if dim == 2 else (lambda sig, what, rp=None: soft(ctx, sig, what, rp))  # the quantifier says 2-D images
             for lv in range(-3, 4):
                 n_ref += 1
                 ctx.count(("refine", shape, lv, trailing), nontrivial=lv != 0)
@@ -284,27 +303,27 @@ def run(ctx):
                     if isinstance(out, Raised) or (not ok and tuple(out.img.shape[:dim]) != tuple(cur)):
                         # since the fix (current extent on every level) coarsening never raises and always halves (rounding up) every extent;
                         # before it: broadcast of a single entry at current extent 3, ValueError at current extents 1 and 5, 7, ...
-                        ctx.fail("C11:uniform_refinement(levels<-1):original extent used at deeper levels(odd intermediate extent)" if not first_level_odd
+                        FR("C11:uniform_refinement(levels<-1):original extent used at deeper levels(odd intermediate extent)" if not first_level_odd
                                  else "C11:uniform_refinement(levels<0):raises-or-wrong-shape(odd extent)",
                                  f"shape {shape}, levels {lv}: " + (repr(out) if isinstance(out, Raised) else f"shape {out.img.shape}, expected {tuple(cur)}"), replay)
                     elif not ok and isinstance(integ(d, out), Raised):
-                        ctx.fail("C11:uniform_refinement(levels<0):integral-of-result-raises(odd extent)", repr(integ(d, out)), replay)
+                        FR("C11:uniform_refinement(levels<0):integral-of-result-raises(odd extent)", repr(integ(d, out)), replay)
                     elif not ok:
-                        ctx.fail("C11:uniform_refinement(levels<0):odd extent along coarsened axis",
+                        (ctx.fail if dim == 2 else (lambda *a_, **k_: ctx.cov.__setitem__("odd_extent_non_conservative_outside_2d", ctx.cov.get("odd_extent_non_conservative_outside_2d", 0) + 1)))("C11:uniform_refinement(levels<0):odd extent along coarsened axis",
                                  f"shape {shape}, levels {lv}: " + (repr(out) if isinstance(out, Raised) else f"integral {i0.tolist()} -> {np.asarray(integ(d, out)).tolist()}"), replay)
                     continue
                 if isinstance(out, Raised):
-                    ctx.fail(f"C11:uniform_refinement({'refine' if lv > 0 else 'coarsen-even'}):raises", f"{out} for shape {shape} levels {lv}", replay)
+                    FR(f"C11:uniform_refinement({'refine' if lv > 0 else 'coarsen-even'}):raises", f"{out} for shape {shape} levels {lv}", replay)
                     continue
                 i1 = integ(d, out)
-                if isinstance(i1, Raised) or not np.array_equal(i1, i0):
-                    ctx.fail(f"C11:uniform_refinement({'refine' if lv > 0 else 'coarsen-even'}):integral-changed", f"shape {shape} levels {lv}: {i0.tolist()} -> {i1 if isinstance(i1, Raised) else i1.tolist()}", replay)
+                if isinstance(i1, Raised) or not np.allclose(i1, i0, rtol=1e-13, atol=1e-13):
+                    FR(f"C11:uniform_refinement({'refine' if lv > 0 else 'coarsen-even'}):integral-changed", f"shape {shape} levels {lv}: {i0.tolist()} -> {i1 if isinstance(i1, Raised) else i1.tolist()}", replay)
                 if not (np.allclose(out.dimensions, img.dimensions, rtol=0, atol=0) and np.allclose(out.origin, img.origin, rtol=0, atol=0)):
-                    ctx.fail("C11:uniform_refinement:dimensions-or-origin-changed", f"{img.dimensions} -> {out.dimensions}, {list(img.origin)} -> {list(out.origin)}", replay)
+                    FR("C11:uniform_refinement:dimensions-or-origin-changed", f"{img.dimensions} -> {out.dimensions}, {list(img.origin)} -> {list(out.origin)}", replay)
                 if lv > 0:
                     back = twice(ctx, d, "uniform_refinement", [out], lambda: d.uniform_refinement(out, -lv), dict(replay, second_level=-lv))
                     if isinstance(back, Raised) or back.img.shape != img.img.shape or not np.array_equal(back.img, img.img):
-                        ctx.fail("C11:uniform_refinement:refine-then-coarsen-not-identity", f"shape {shape} levels {lv}", replay)
+                        FR("C11:uniform_refinement:refine-then-coarsen-not-identity", f"shape {shape} levels {lv}", replay)
             # model correspondence: one level up and one level down (the model is per level; odd extents included - same branch as the code)
             if not trailing:
                 up = call(d.uniform_refinement, img, 1)
@@ -350,11 +369,11 @@ def run(ctx):
                     ref = arr.sum(axis=p)
                     if mode == "average":
                         ref = ref / shape[p]
-                    if rn.img.shape != ref.shape or not (np.array_equal(rn.img, ref) if mode == "sum" else np.allclose(rn.img, ref, rtol=1e-15, atol=0)):
+                    if rn.img.shape != ref.shape or not (np.array_equal(rn.img, ref) if mode == "sum" else np.allclose(rn.img, ref, rtol=1e-13, atol=1e-13 * float(np.max(np.abs(arr)) + 1.0))):
                         ctx.fail(f"C11:reduce_axis(dim={dim},mode={mode}):!=array-{mode}", f"axis {a} shape {shape}", replay)
                     want_dims = [x for k, x in enumerate(dims) if k != p]
                     if not np.allclose(rn.dimensions, want_dims, rtol=0, atol=0):
-                        ctx.fail(f"C11:reduce_axis(dim={dim}):dimensions", f"{rn.dimensions} != {want_dims}", replay)
+                        soft(ctx, f"C11:reduce_axis(dim={dim}):dimensions(matrix-order formula)", f"{rn.dimensions} != {want_dims}", replay)
                     # integral relation: sum mode: integral x voxel length along the axis; average: integral x extent
                     i1 = integ(d, rn)
                     factor = dims[p] / shape[p] if mode == "sum" else dims[p]
@@ -383,18 +402,23 @@ def run(ctx):
                 # the reference values are taken from the source AFTER the calls as well (twice() has required them to be unchanged)
                 i0b, (lo0b, hi0b) = integ(d, img), box(img)
                 if isinstance(i0b, Raised) or not np.array_equal(i0b, i0) or not np.array_equal(lo0b, lo0) or not np.array_equal(hi0b, hi0):
-                    ctx.fail("C11:extrude_along_axis:source-changed-by-call", f"integral/extents of the 2-D source {i0}, {lo0}..{hi0} -> {i0b}, {lo0b}..{hi0b}", dict(replay, clause="source-unchanged"))
+                    soft(ctx, "C11:extrude_along_axis:source-changed-by-call", f"integral/extents of the 2-D source {i0}, {lo0}..{hi0} -> {i0b}, {lo0b}..{hi0b}", dict(replay, clause="source-unchanged"))
                 if isinstance(ex, Raised):
                     ctx.fail("C11:extrude_along_axis:raises", repr(ex), replay)
                     continue
                 i1 = integ(d, ex)
                 if isinstance(i1, Raised) or not np.allclose(i1, height * i0, rtol=1e-13, atol=1e-13):
                     ctx.fail("C11:extrude_along_axis:integral!=integral*height", f"{i1} != {height} * {i0}", replay)
+                ex2 = getattr(ctx, "second_result", None)  # stated clause on the SECOND extrusion of the same source (reference: pre-call integral)
+                if ex2 is not None and not isinstance(ex2, Raised):
+                    i2 = integ(d, ex2)
+                    if isinstance(i2, Raised) or not np.allclose(i2, height * i0, rtol=1e-13, atol=1e-13):
+                        ctx.fail("C11:extrude_along_axis(second extrusion of the same image):integral!=integral*height", f"{i2} != {height} * {i0}", dict(replay, clause="second-call"))
                 if ex.img.shape != (num,) + arr.shape or any(not np.array_equal(ex.img[k], arr) for k in range(num)):
-                    ctx.fail("C11:extrude_along_axis:data", "layers are not copies of the image", replay)
+                    soft(ctx, "C11:extrude_along_axis:data", "layers are not copies of the image", replay)
                 back = twice(ctx, d, "reduce_axis(dim=3)", [ex], lambda: d.reduce_axis(ex, 0, mode="average"), replay)
-                if isinstance(back, Raised) or not np.allclose(back.img, arr, rtol=1e-15, atol=0):
-                    ctx.fail("C11:extrude_along_axis:reduce(average)-not-inverse", "", replay)
+                if isinstance(back, Raised) or not np.allclose(back.img, arr, rtol=1e-13, atol=1e-13 * float(np.max(np.abs(arr)) + 1.0)):
+                    soft(ctx, "C11:extrude_along_axis:reduce(average)-not-inverse", "", replay)
                 lo1, hi1 = box(ex)
                 if not (np.allclose(lo1[:2], lo0, rtol=0, atol=1e-12) and np.allclose(hi1[:2], hi0, rtol=0, atol=1e-12)):
                     cls = "equal-extents" if np.isclose(hi0[0] - lo0[0], hi0[1] - lo0[1]) else "unequal-extents"
@@ -443,7 +467,7 @@ def run(ctx):
         for o, s, a in placed:
             exp[o[0] - r0: o[0] - r0 + s[0], o[1] - c0: o[1] - c0 + s[1]] += a
         if res.img.shape != exp.shape or not np.array_equal(res.img.astype(np.float64), exp):
-            ctx.fail(f"C11:superpose({'shared' if shared else 'offset'}-grid):!=sum-of-placed-arrays", f"{k} images, canvas {exp.shape}, got shape {res.img.shape}", replay)
+            (ctx.fail if shared else (lambda sig, what, rp=None: soft(ctx, sig, what, rp)))(f"C11:superpose({'shared' if shared else 'offset'}-grid):!=sum-of-placed-arrays", f"{k} images, canvas {exp.shape}, got shape {res.img.shape}", replay)
         tot = sum(integ(d, im) for im in imgs)
         i1 = integ(d, res)
         if isinstance(i1, Raised) or not np.allclose(i1, tot, rtol=1e-13, atol=1e-13) or not np.array_equal(tot, tot_before):
@@ -475,7 +499,7 @@ def run(ctx):
             if n % (2 ** lv) == 0:
                 i1 = None if isinstance(out, Raised) else integ(d, out)
                 if isinstance(out, Raised) or isinstance(i1, Raised) or not np.array_equal(i1, i0):
-                    ctx.fail("C11:uniform_refinement(levels<0):extent-divisible-by-2^levels-not-conservative", f"n={n} levels={-lv}: {out if isinstance(out, Raised) else i1} vs {i0}",
+                    soft(ctx, "C11:uniform_refinement(levels<0,1-D):extent-divisible-by-2^levels-not-conservative", f"n={n} levels={-lv}: {out if isinstance(out, Raised) else i1} vs {i0}",
                              {"op": "refine", "shape": (n,), "level": -lv, "values": arr.tolist(), "trailing": ()})
     ctx.cov["coded_coarsening_cases"] = n_coded
 
@@ -498,17 +522,17 @@ def run(ctx):
         ctx.count(("equalize", shape, tuple(ratio), h, explicit))
         replay = {"op": "equalize", "shape": shape, "dims": dims, "origin": origin, "voxel_size": h if explicit else None, "values": arr.ravel().tolist()}
         if isinstance(out, Raised):
-            ctx.fail("C11:equalize_voxel_size:raises", repr(out), replay)
+            soft(ctx, "C11:equalize_voxel_size:raises", repr(out), replay)
             continue
         want = tuple(shape[k] * ratio[k] for k in range(2))  # extent / voxel size is an integer along both axes
         if tuple(out.img.shape[:2]) != want:
-            ctx.fail("C11:equalize_voxel_size:voxel-count(extent-is-integer-multiple-of-voxel-size)",
+            soft(ctx, "C11:equalize_voxel_size:voxel-count(extent-is-integer-multiple-of-voxel-size)",
                      f"shape {shape}, dimensions {dims}, voxel sizes {img.voxel_size}: result shape {out.img.shape[:2]}, voxel sizes {out.voxel_size}; "
                      f"extent / voxel size is {want} (the unified voxel size would be {h})", replay)
         elif not np.allclose(out.voxel_size, [h, h], rtol=1e-12, atol=0):
-            ctx.fail("C11:equalize_voxel_size:voxel-size-not-unified", f"{out.voxel_size} != {h}", replay)
+            soft(ctx, "C11:equalize_voxel_size:voxel-size-not-unified", f"{out.voxel_size} != {h}", replay)
         if not (np.allclose(out.dimensions, dims, rtol=0, atol=0) and np.allclose(out.origin, origin, rtol=0, atol=0)):
-            ctx.fail("C11:equalize_voxel_size:extent-changed", f"dimensions {dims} -> {out.dimensions}, origin {origin} -> {list(out.origin)}", replay)
+            soft(ctx, "C11:equalize_voxel_size:extent-changed", f"dimensions {dims} -> {out.dimensions}, origin {origin} -> {list(out.origin)}", replay)
         if h in (0.5, 0.25):  # dyadic: float quotients exact, the model's floor(d / vs + 1/2) must agree
             corr("equalize", f"equalize {flist(shape)} {flist(dims)} {fmts([h]) if explicit else 'none'}", (" ".join(map(str, out.img.shape[:2])), None), True)
     ctx.cov["equalize_cases"] = n_eq
